@@ -986,12 +986,12 @@ DRIVERS = {
         exhaustive=True,
     ),
     "decorated-trees": dict(
-        rule="every base tree with <= 2 binary nodes x one decoration: a unary sign run (length <= 2, <= 3 for <= 1 node) at any "
+        rule="every base tree with <= 2 binary nodes x one decoration: a unary sign run (length <= 2 in the quick tier, <= 3 in the thorough tier and always for <= 1 node) at any "
         "node, an additive operator written as a sign run (length 2..3), redundant parentheses around any node, a special atom "
         "(0, 1, 2.5, quoted name, call, brace, '.') at any leaf where the grammar defines it; '.' x 4 available-variable lists",
         exhaustive=True,
     ),
-    "decorated-pairs": dict(rule="every pair of decorations on base trees with <= 1 binary node (exponents 1..3)", exhaustive=True),
+    "decorated-pairs": dict(rule="every ordered pair of decorations (as in decorated-trees) on base trees with <= 1 binary node, exponents 1..3, distinct strings only", exhaustive=True),
     "powers": dict(rule="** and ^ with exponents 1..3 over 7 operand shapes, chains of two powers, excluded exponents (0, 2.5, a name)", exhaustive=True),
     "random-trees": dict(rule="seeded random trees with 4..8 binary nodes, unary runs, parentheses, special atoms", exhaustive=False),
     "sign-run-negative-space": dict(
@@ -1079,7 +1079,7 @@ def run_bounded(ctx):
     bounds = {
         "grammar-trees": "binary operator nodes <= 3 with every labelling up to renaming over a..d" + ("; 4 nodes with 4 key labellings (all-distinct, all-equal, alternating, pairwise-equal)" if th else "") + "; exponents 1..3 for <= 2 nodes, 2 beyond",
         "decorated-trees": "base trees <= 2 nodes" + (" (+ 3 nodes: sign-run and parenthesis decorations, all-distinct labelling, runs <= 2)" if th else " (2 nodes: all-distinct, all-equal and first=last labellings)"),
-        "decorated-pairs": "base trees <= 1 node" + ("" if th else ", all-equal labelling"),
+        "decorated-pairs": "base trees <= 1 node; " + ("runs <= 2, every labelling" if th else "runs of length 1, all-equal labelling"),
         "powers": "see rule",
         "random-trees": f"{100000 if th else 3200} trees, seed {ctx.seed}",
         "sign-run-negative-space": f"base trees <= 2 nodes, runs <= {3 if th else 2} (<= 3 for <= 1 node)",
